@@ -244,7 +244,7 @@ def judge(c, cff, root, mod, pkg, where, expect, meta, label):
     """expect: {flowname: True if ill-formed}. Files hold either only well-formed or only ill-formed flows
     (named good*/bad*). Files violations in c; returns number of flows judged."""
     rc, text, diags = run_cff_pkg(cff, root, mod, pkg)
-    if "panic:" in text and "goroutine " in text:
+    if ("panic:" in text or "fatal error:" in text) and "goroutine " in text:
         c.violation("C13", "cff died with a Go panic on the %s corpus:\n%s" % (label, text[-1500:]), dict(kind="wf", label=label))
         raise Inconclusive("cff crashed on the %s corpus" % label)
     d = os.path.join(root, pkg)
